@@ -657,8 +657,15 @@ def run_program(prog):
         impl.append((e.vertex_1.index, e.vertex_2.index, tag_of.get(id(e.data), 0)))
     if sorted((a, b) for (a, b, _t) in impl) != sorted((en["v1"], en["v2"]) for en in entries):
         raise GenError("edge objects and written text disagree")
+    # should the implementation copy the data objects, identify the definition of an entry by its text
+    for j, (a, b, t) in enumerate(impl):
+        if t == 0:
+            ens = [en for en in entries if (en["v1"], en["v2"]) == (a, b)]
+            cands = [tt for (tt, _i, _s, d) in defs if ens and entry_matches(ens[0], d, vpos)
+                     and {index_of(d["a"], vpos), index_of(d["b"], vpos)} == {a, b}]
+            if cands:
+                impl[j] = (a, b, cands[0])
     requests = []
-    verts = mesh.vertex_list.vertices
     for i, op in enumerate(ops):
         bv = mesh.block_list.blocks[i].vertices
         for (c1, c2, data) in op.edges.get_all_beams():
@@ -673,7 +680,6 @@ def run_program(prog):
     for bi, b in enumerate(mesh.block_list.blocks):
         for w in b.wire_list:
             wires.append((bi, w.corners[0], w.corners[1], w.edge.kind, safe_length(w.edge)))
-    _ = verts
     return dict(vpos=vpos, blocks=blocks, entries=entries, impl=impl, requests=requests, wires=wires)
 
 
@@ -999,10 +1005,10 @@ def shrink_program(prog, sig, budget=60):
                 break
         if not changed:
             for i, o in enumerate(cur["ops"]):
-                if o["variant"] != "given":
+                # (side edges are defined on the finished operation: their end points depend on the variant)
+                if o["variant"] != "given" and not any(ed["slot"] >= 8 for ed in o["edges"]):
                     cand = json.loads(json.dumps(cur))
                     cand["ops"][i]["variant"] = "given"
-                    # side edges were defined on the final numbering; keep only if still failing
                     n += 1
                     if still(cand):
                         cur, changed = cand, True
@@ -1140,7 +1146,7 @@ class C07(Prop):
             ucases.append((prog, ob))
             if i == 0:
                 res.samples.append(dict(program=prog, requests=ob["requests"], entries=ob["impl"]))
-        peru = 400
+        peru = 125
         for k in range(0, len(ucases), peru):
             body = ["From Coq Require Import List Bool Arith.", "From CB Require Import Model.C07_EdgeList.", "Import ListNotations.",
                     "Definition cases : list (nat * list request * list entry) := ["]
@@ -1152,7 +1158,11 @@ class C07(Prop):
         t0 = _t.time()
         ctx.log("S3: %d single cases, %d validity cases, %d programs run in %.1fs; %d interval goals, %d case files"
                 % (len(rows), nv, npg, t0 - ctx.t0, len(goals), len(shards)))
-        outs = core.run_cases_parallel(ctx, shards)
+        outs = core.run_cases_parallel(ctx, shards, jobs=(16 if ctx.quick else 8))
+        # a case file killed from outside (no Coq error message: memory pressure on a shared machine) is retried alone
+        texts = dict(shards)
+        outs = [(name,) + tuple(core.run_cases_file(ctx, name, texts[name])[:3]) if (rc != 0 and not se.strip()) else (name, rc, so, se)
+                for (name, rc, so, se) in outs]
         ctx.log("S3: case files compiled in %.1fs" % (_t.time() - t0))
         for (name, rc, so, se) in outs:
             if rc != 0:
